@@ -165,3 +165,7 @@ func vAliasBytes(a, b []byte) bool {
 	}
 	return false
 }
+
+// vEncodeFormats: the format codes handed to the type map's Encode so far
+// (observable only in the encoding; natively the real pgx codecs run).
+func vEncodeFormats() []int { return nil }
